@@ -70,10 +70,12 @@ Proof. exact reveal_monotone. Qed.
 Print Assumptions C12_reveal_monotone.
 
 (* revealing is defined whenever its two guards pass (any variant; a call site that passes the mappings on
-   needs them to pass the constructor's check, which holds for both halves of a split and is preserved) *)
+   needs them to pass the constructor's check, which holds for both halves of a split and is preserved).
+   reveal_zero_guard (Model/Reveal.v) = the zero guard of the code as repaired by fix fx5: the selected values are all
+   zero (or nothing is selected), or SOME selected plate's own values are all zero; C12_reveal_zero_guard_meaning below *)
 Theorem C12_reveal_defined : forall v s ids,
   constructed s -> (carry_reveal v = true -> mappings_valid s) ->
-  forallb obs_is_zero (revealed_values s ids) = false -> existsb obs_is_nan (revealed_values s ids) = false ->
+  reveal_zero_guard s ids = false -> existsb obs_is_nan (revealed_values s ids) = false ->
   exists s', reveal_plates v s ids = Ok s'.
 Proof. exact reveal_defined. Qed.
 Print Assumptions C12_reveal_defined.
@@ -81,7 +83,7 @@ Print Assumptions C12_reveal_defined.
 Theorem C12_step_defined : forall v s o,
   constructed s -> (carries v o = true -> mappings_valid s) ->
   match o with
-  | Reveal ids => forallb obs_is_zero (revealed_values s ids) = false /\ existsb obs_is_nan (revealed_values s ids) = false
+  | Reveal ids => reveal_zero_guard s ids = false /\ existsb obs_is_nan (revealed_values s ids) = false
   | _ => True
   end -> exists s', step v s o = Ok s'.
 Proof. exact step_defined. Qed.
@@ -90,7 +92,7 @@ Print Assumptions C12_step_defined.
 Theorem C12_repaired_lifecycle_defined : forall p sel test ops s o,
   lifecycle (carry_mappings true) p sel test ops = Ok s ->
   match o with
-  | Reveal ids => forallb obs_is_zero (revealed_values s ids) = false /\ existsb obs_is_nan (revealed_values s ids) = false
+  | Reveal ids => reveal_zero_guard s ids = false /\ existsb obs_is_nan (revealed_values s ids) = false
   | _ => True
   end -> exists s', step (carry_mappings true) s o = Ok s'.
 Proof. exact repaired_lifecycle_defined. Qed.
@@ -194,8 +196,12 @@ Theorem C12_reveal_refuses_unknown : forall v s ids,
 Proof. exact reveal_refuses_unknown. Qed.
 Print Assumptions C12_reveal_refuses_unknown.
 
+(* a NaN among the selected values: refused - with the NaN error (9) unless the zero guard, which the code tests first,
+   already refused it (8: another selected plate holds only zeros; never because the selection is jointly zero) *)
 Theorem C12_reveal_refuses_nan : forall v s ids,
-  existsb obs_is_nan (revealed_values s ids) = true -> reveal_plates v s ids = Err 9.
+  existsb obs_is_nan (revealed_values s ids) = true ->
+  forallb obs_is_zero (revealed_values s ids) = false /\
+  reveal_plates v s ids = Err (if reveal_zero_guard s ids then 8 else 9).
 Proof. exact reveal_refuses_nan. Qed.
 Print Assumptions C12_reveal_refuses_nan.
 
@@ -303,12 +309,17 @@ Example C12_reveal_observed_example :
   reveal_plates (carry_mappings false) w_parent [] = Err 8 /\ reveal_plates (carry_mappings false) w_parent [99; -3] = Err 8.
 Proof. vm_compute. repeat split; reflexivity. Qed.
 
-(* a plate whose stored values are +0.0 and -0.0 is refused (8); one containing a NaN is refused (9) *)
+(* a plate whose stored values are +0.0 and -0.0 is refused (8); one containing a NaN is refused (9); both together:
+   the zero guard comes first (8); the zero plate (48) beside a plate holding 0.5 and 0.25 (50): refused (8) since fix
+   fx5, while the plate 50 alone is revealed *)
 Example C12_refuse_example :
-  (dor s <- mk_screen [zrow 48 0; zrow 48 two63; zrow 49 9221120237041090560; zrow 49 4602678819172646912] 1 [] None None true true;
+  (dor s <- mk_screen [zrow 48 0; zrow 48 two63; zrow 49 9221120237041090560; zrow 49 4602678819172646912;
+                       zrow 50 4602678819172646912; zrow 50 4598175219545276416] 1 [] None None true true;
    Ok (reveal_plates (carry_mappings false) s [0], reveal_plates (carry_mappings false) s [1],
-       reveal_plates (carry_mappings false) s [0; 1]))
-  = Ok (Err 8, Err 9, Err 9).
+       reveal_plates (carry_mappings false) s [0; 1], reveal_plates (carry_mappings false) s [0; 2],
+       reveal_plates (carry_mappings false) s [2; 1],
+       option_map fst (view (reveal_plates (carry_mappings false) s [2]))))
+  = Ok (Err 8, Err 9, Err 8, Err 8, Err 9, Some [false; false; false; false; true; true]).
 Proof. vm_compute. reflexivity. Qed.
 
 (* constructor: a plate with mixed status is rejected *)
@@ -378,32 +389,50 @@ Proof. exact C12SourceCliReveal.src_cli_reveal_plate_reveal. Qed.
 Print Assumptions C12_model_is_source_cli_reveal_plate_reveal.
 
 (* ---- the guards of reveal, read PER PLATE ("revealing refuses plates whose stored values are all zero or contain NaN") ----
-   plate_values s pid = the stored values of the rows whose plate id is pid (end of Model/Reveal.v).  The code evaluates
-   both guards on the union of the selected rows; per plate the NaN half holds as stated, the zero half only when EVERY
-   named plate is all zero, and the clause as the property words it is FALSE of the source: the all-zero plate is
-   revealed when it is named together with a plate holding a non-zero value (KNOWN_FINDINGS: reveal-zero-guard-is-joint). *)
+   plate_values s pid = the stored values of the rows whose plate id is pid (Model/Reveal.v).  Since fix fx5 the code tests
+   the zero guard on every selected plate by itself (after the joint test over the union of the selected rows, kept: it
+   refuses the empty selection); the NaN guard is np.any over the union, i.e. per plate already.  The clause holds as the
+   property words it: ONE named plate of the screen that is all zero, or contains a NaN, refuses the whole reveal. *)
 From Batchie Require Proofs.C12PerPlate.
+Theorem C12_reveal_refuses_zero_per_plate : forall v s ids pid,
+  In pid ids -> In pid (s_pids s) -> forallb obs_is_zero (plate_values s pid) = true -> reveal_plates v s ids = Err 8.
+Proof. exact C12PerPlate.reveal_refuses_zero_per_plate. Qed.
+Print Assumptions C12_reveal_refuses_zero_per_plate.
+
+(* tag 9, or tag 8 when the zero guard (tested first) fires as well *)
 Theorem C12_reveal_refuses_nan_per_plate : forall v s ids pid,
-  In pid ids -> existsb obs_is_nan (plate_values s pid) = true -> reveal_plates v s ids = Err 9.
+  In pid ids -> existsb obs_is_nan (plate_values s pid) = true ->
+  reveal_plates v s ids = Err (if reveal_zero_guard s ids then 8 else 9).
 Proof. exact C12PerPlate.reveal_refuses_nan_per_plate. Qed.
 Print Assumptions C12_reveal_refuses_nan_per_plate.
 
-Theorem C12_reveal_refuses_zero_every_plate_partial : forall v s ids,
-  (forall pid, In pid ids -> forallb obs_is_zero (plate_values s pid) = true) -> reveal_plates v s ids = Err 8.
-Proof. exact C12PerPlate.reveal_refuses_zero_every_plate. Qed.
-Print Assumptions C12_reveal_refuses_zero_every_plate_partial.
+(* exactly when the zero guard fires *)
+Theorem C12_reveal_zero_guard_meaning : forall s ids,
+  reveal_zero_guard s ids = true <->
+  forallb obs_is_zero (revealed_values s ids) = true \/
+  exists pid, In pid ids /\ In pid (s_pids s) /\ forallb obs_is_zero (plate_values s pid) = true.
+Proof. exact C12PerPlate.reveal_zero_guard_spec. Qed.
+Print Assumptions C12_reveal_zero_guard_meaning.
 
-(* refutation of "forall s ids pid, In pid ids -> plate pid all zero -> reveal refuses": a constructed screen, an
-   unobserved non-empty all-zero plate pid named in ids, which alone is refused (tag 8), and the TRANSLATED
-   reveal_plates (= the model's with the mappings carried) returns a screen in which that plate is observed *)
+(* conversely: every plate an ACCEPTED reveal names holds a non-zero value and no NaN *)
+Theorem C12_reveal_ok_per_plate : forall v s ids s' pid,
+  reveal_plates v s ids = Ok s' -> In pid ids -> In pid (s_pids s) ->
+  forallb obs_is_zero (plate_values s pid) = false /\ existsb obs_is_nan (plate_values s pid) = false.
+Proof. exact C12PerPlate.reveal_ok_per_plate. Qed.
+Print Assumptions C12_reveal_ok_per_plate.
+
+(* the code BEFORE fix fx5 (Model/Reveal.reveal_plates_joint: the zero guard over the union only) did not satisfy the
+   per-plate clause: a constructed screen, an unobserved non-empty all-zero plate pid named in ids, which alone is refused
+   (tag 8), and the old reveal returns a screen in which that plate is observed.  The repaired model and the TRANSLATED
+   reveal_plates refuse the same call. *)
 Theorem C12_reveal_refuses_zero_per_plate_refuted :
   exists s ids pid s',
     constructed s /\ In pid ids /\ In pid (s_pids s) /\ plate_observed s pid = false /\
     plate_values s pid <> [] /\ forallb obs_is_zero (plate_values s pid) = true /\
-    reveal_plates (carry_mappings true) s [pid] = Err 8 /\
-    src_reveal_plates s ids = Ok s' /\ reveal_plates (carry_mappings true) s ids = Ok s' /\
-    plate_observed s' pid = true.
-Proof. exact C12PerPlate.reveal_zero_guard_is_joint. Qed.
+    reveal_plates_joint (carry_mappings true) s [pid] = Err 8 /\
+    reveal_plates_joint (carry_mappings true) s ids = Ok s' /\ plate_observed s' pid = true /\
+    reveal_plates (carry_mappings true) s ids = Err 8 /\ src_reveal_plates s ids = Err 8.
+Proof. exact C12PerPlate.reveal_zero_guard_was_joint. Qed.
 Print Assumptions C12_reveal_refuses_zero_per_plate_refuted.
 
 (* ---- "the number of unobserved plates REPORTED for the screen" ----
